@@ -199,6 +199,31 @@ func (s *exState) ex(v ssa.Value) string {
 	switch v := v.(type) {
 	case *ssa.Parameter:
 		fn := v.Parent()
+		// parameter of an immediately-invoked function literal: the actual argument, rendered in the caller
+		if par := fn.Parent(); par != nil && fn.Signature.Recv() == nil {
+			var site *ssa.CallCommon
+			n := 0
+			for _, b := range par.Blocks {
+				for _, in := range b.Instrs {
+					if ci, ok := in.(ssa.CallInstruction); ok {
+						if mc, ok := ci.Common().Value.(*ssa.MakeClosure); ok && mc.Fn == fn {
+							site = ci.Common()
+							n++
+						} else if sf, ok := ci.Common().Value.(*ssa.Function); ok && sf == fn {
+							site = ci.Common()
+							n++
+						}
+					}
+				}
+			}
+			if n == 1 {
+				for i, p := range fn.Params {
+					if p == v && i < len(site.Args) {
+						return s.ex(site.Args[i])
+					}
+				}
+			}
+		}
 		for i, p := range fn.Params {
 			if p == v {
 				if fn.Signature.Recv() != nil {
@@ -1124,7 +1149,6 @@ func returnSet(fn *ssa.Function, idx int) map[string]bool {
 	return out
 }
 
-
 // litFields: for a composite-literal Alloc, the rendering of the value stored into each field.
 func litFields(a *ssa.Alloc) map[string]ssa.Value {
 	out := map[string]ssa.Value{}
@@ -1174,4 +1198,109 @@ func underlyingAlloc(v ssa.Value) *ssa.Alloc {
 		}
 	}
 	return nil
+}
+
+// ---------------------------------------------------------------------------------------------
+// Condition normalisation: a rule states a condition in one spelling; the code may test the negation,
+// swap the operands or wrap it in `!`. condVariants enumerates the equivalent renderings of an If
+// condition together with the successor index taken when that rendering is TRUE.
+// ---------------------------------------------------------------------------------------------
+
+var negOp = map[token.Token]token.Token{token.EQL: token.NEQ, token.NEQ: token.EQL, token.LSS: token.GEQ, token.GEQ: token.LSS, token.GTR: token.LEQ, token.LEQ: token.GTR}
+var swapOp = map[token.Token]token.Token{token.EQL: token.EQL, token.NEQ: token.NEQ, token.LSS: token.GTR, token.GTR: token.LSS, token.LEQ: token.GEQ, token.GEQ: token.LEQ}
+
+func condVariants(v ssa.Value) map[string]int {
+	out := map[string]int{}
+	var rec func(v ssa.Value, flip int)
+	rec = func(v ssa.Value, flip int) {
+		switch x := v.(type) {
+		case *ssa.UnOp:
+			if x.Op == token.NOT {
+				rec(x.X, 1-flip)
+				return
+			}
+		case *ssa.BinOp:
+			if _, ok := negOp[x.Op]; ok {
+				a, b := ex(x.X), ex(x.Y)
+				out["("+a+" "+x.Op.String()+" "+b+")"] = flip
+				out["("+b+" "+swapOp[x.Op].String()+" "+a+")"] = flip
+				n := negOp[x.Op]
+				out["("+a+" "+n.String()+" "+b+")"] = 1 - flip
+				out["("+b+" "+swapOp[n].String()+" "+a+")"] = 1 - flip
+				return
+			}
+		}
+		s := ex(v)
+		out[s] = flip
+		out["!"+s] = 1 - flip
+	}
+	rec(v, 0)
+	return out
+}
+
+// succWhen: the successor of iff taken when the condition `want` holds, and the other one.
+func succWhen(iff *ssa.If, want string) (then, els *ssa.BasicBlock, ok bool) {
+	idx, ok := condVariants(iff.Cond)[want]
+	if !ok {
+		return nil, nil, false
+	}
+	return iff.Block().Succs[idx], iff.Block().Succs[1-idx], true
+}
+
+// succWhenFunc: like succWhen but the wanted condition is recognised by a predicate over the
+// equivalent renderings.
+func succWhenFunc(iff *ssa.If, pred func(string) bool) (then, els *ssa.BasicBlock, cond string, ok bool) {
+	vs := condVariants(iff.Cond)
+	var keys []string
+	for k := range vs {
+		keys = append(keys, k)
+	}
+	sort.Strings(keys)
+	for _, k := range keys {
+		if pred(k) {
+			idx := vs[k]
+			return iff.Block().Succs[idx], iff.Block().Succs[1-idx], k, true
+		}
+	}
+	return nil, nil, "", false
+}
+
+// condTrueAt: the rendered condition `want` is known to hold at block b (b is reachable only through the
+// edge on which `want` is true, of some If of fn).
+func condTrueAt(fn *ssa.Function, want string, b *ssa.BasicBlock) bool {
+	for _, iff := range ifsIn(fn) {
+		if tb, _, ok := succWhen(iff, want); ok && edgeMustPass(fn, edge{iff.Block(), tb}, b) {
+			return true
+		}
+	}
+	return false
+}
+
+// nilGuard: the If testing v against nil; nonNil / isNil are the successors for v != nil / v == nil.
+func nilGuard(fn *ssa.Function, v ssa.Value) (iff *ssa.If, nonNil, isNil *ssa.BasicBlock) {
+	for _, i := range ifsIn(fn) {
+		b, ok := i.Cond.(*ssa.BinOp)
+		if !ok {
+			continue
+		}
+		var other ssa.Value
+		switch {
+		case b.X == v:
+			other = b.Y
+		case b.Y == v:
+			other = b.X
+		default:
+			continue
+		}
+		if !isNilConst(other) {
+			continue
+		}
+		switch b.Op {
+		case token.NEQ:
+			return i, i.Block().Succs[0], i.Block().Succs[1]
+		case token.EQL:
+			return i, i.Block().Succs[1], i.Block().Succs[0]
+		}
+	}
+	return nil, nil, nil
 }
